@@ -2,6 +2,8 @@ import L4.Proofs.Conn
 import L4.Matchers.Small
 import L4.Matchers.Winbox
 import L4.Proofs.Winbox
+import L4.Matchers.Rdp
+import L4.Proofs.Rdp
 import L4.Matchers.Wireguard
 import L4.Matchers.More
 /-!
@@ -11,9 +13,9 @@ import L4.Matchers.More
   buffer, and `unfreeze` restores the cursor (any matcher, shipped or third-party);
 * verdict stability and fragmentation safety, proved once for **every** `ReadFull`-only matcher program and instantiated
   for ssh, xmpp, postgres, socks4, socks5, proxy_protocol, regexp, tls;
-* the exact-length matchers (rdp, dns/tcp, openvpn/tcp, winbox) reject trailing data by design; for WinBox (the only
-  matcher that reads with `io.ReadAtLeast`) fragmentation safety and the finality of `no` are proved separately, for every
-  configuration and input; the matcher of the previous revision violated the former (witness below).
+* the exact-length matchers (rdp, dns/tcp, openvpn/tcp, winbox) reject trailing data by design (`yes` is not stable), but
+  fragmentation safety and the finality of `no` hold for each of them and are proved separately, for every configuration and
+  input; the WinBox matcher of the previous revision violated the former (witness below).
 -/
 namespace L4.C06
 open L4 L4.M L4.Prog
@@ -141,5 +143,337 @@ theorem winbox_fragment_rejected_before_repair :
     (Winbox.matcherOld winboxCfg).run (winboxTwoChunk.take 258) = .no ∧
     (Winbox.matcher winboxCfg).run (winboxTwoChunk.take 258) = .more := by
   refine ⟨?_, ?_, ?_⟩ <;> decide +kernel
+
+section
+open L4.Gen
+
+
+/-! ### the exact-length matchers over TCP: dns and rdp -/
+
+/-- **DNS over TCP, fragmentation safety**: a framed message that matches is answered "need more" on every proper prefix
+(whatever `dns.Msg.Unpack` and the allow / deny lists say) -/
+theorem dnsTcp_fragment_safe (cfg : DnsCfg) (unpack : Bytes → Option DnsMsg) (bs : Bytes)
+    (h : dnsTcp cfg unpack bs = .yes) (k : Nat) (hk : k < bs.length) : dnsTcp cfg unpack (bs.take k) = .more := by
+  unfold dnsTcp at h ⊢
+  split at h
+  · cases h
+  rename_i hl
+  simp only [] at h
+  split at h
+  · cases h
+  rename_i hn
+  split at h
+  · cases h
+  rename_i hr1
+  split at h
+  · cases h
+  rename_i hr2
+  have hlen : (bs.drop 2).length = bs.length - 2 := List.length_drop
+  by_cases hk2 : k < 2
+  · rw [if_pos (by rw [List.length_take]; omega)]
+  · have hlk : (bs.take k).length = k := by rw [List.length_take]; omega
+    rw [if_neg (by omega)]
+    have g0 : (bs.take k).getD 0 0 = bs.getD 0 0 := by
+      simp only [List.getD_eq_getElem?_getD]; rw [List.getElem?_take_of_lt (by omega)]
+    have g1 : (bs.take k).getD 1 0 = bs.getD 1 0 := by
+      simp only [List.getD_eq_getElem?_getD]; rw [List.getElem?_take_of_lt (by omega)]
+    simp only [g0, g1]
+    rw [if_neg hn]
+    have hd : ((bs.take k).drop 2).length = k - 2 := by rw [List.length_drop, hlk]
+    rw [hd, if_pos (by omega)]
+
+/-- **DNS over TCP, `no` is final** -/
+theorem dnsTcp_no_stable (cfg : DnsCfg) (unpack : Bytes → Option DnsMsg) (pre ext : Bytes)
+    (h : dnsTcp cfg unpack pre = .no) : dnsTcp cfg unpack (pre ++ ext) = .no := by
+  cases ext with
+  | nil => simpa using h
+  | cons e es =>
+  unfold dnsTcp at h ⊢
+  split at h
+  · cases h
+  rename_i hl
+  rw [if_neg (by rw [List.length_append]; omega)]
+  have g0 : (pre ++ e :: es).getD 0 0 = pre.getD 0 0 := by
+    simp only [List.getD_eq_getElem?_getD]; rw [List.getElem?_append_left (by omega)]
+  have g1 : (pre ++ e :: es).getD 1 0 = pre.getD 1 0 := by
+    simp only [List.getD_eq_getElem?_getD]; rw [List.getElem?_append_left (by omega)]
+  simp only [g0, g1] at h ⊢
+  split at h
+  · rename_i hn; rw [if_pos hn]
+  rename_i hn
+  rw [if_neg hn]
+  split at h
+  · cases h
+  rename_i hr1
+  have hd : ((pre ++ e :: es).drop 2).length = (pre.drop 2).length + es.length + 1 := by
+    rw [List.length_drop, List.length_append, List.length_drop, List.length_cons]; omega
+  rw [hd, if_neg (by omega), if_pos (by omega)]
+
+/-- **RDP, fragmentation safety** (every configuration) -/
+theorem rdp_fragment_safe (cfg : Rdp.Cfg) (bs : Bytes) (h : Rdp.matcher cfg bs = .yes) (k : Nat) (hk : k < bs.length) :
+    Rdp.matcher cfg (bs.take k) = .more := by
+  unfold Rdp.matcher at h ⊢
+  split at h
+  · cases h
+  rename_i hl
+  by_cases hk2 : k < l4rdp_RDPConnReqBytesMin
+  · rw [if_pos (by rw [List.length_take]; omega)]
+  · have hlk : (bs.take k).length = k := by rw [List.length_take]; omega
+    rw [if_neg (by omega)]
+    have ht : (bs.take k).take l4rdp_RDPConnReqBytesMin = bs.take l4rdp_RDPConnReqBytesMin := by
+      rw [List.take_take]; congr 1; omega
+    rw [ht]
+    cases hh : Rdp.header (bs.take l4rdp_RDPConnReqBytesMin) with
+    | panic s => rw [hh] at h; cases h
+    | err c => rw [hh] at h; cases h
+    | ok r =>
+      rw [hh] at h
+      cases r with
+      | none => cases h
+      | some n =>
+        simp only [] at h ⊢
+        split at h
+        · cases h
+        rename_i hr
+        -- the whole input ends exactly with the announced payload: a trailing byte would have been rejected
+        have hex : (bs.drop l4rdp_RDPConnReqBytesMin).length = n := by
+          apply Classical.byContradiction
+          intro hne
+          have hp : Rdp.probe1 ((bs.drop l4rdp_RDPConnReqBytesMin).drop n) = true := by
+            simp only [Rdp.probe1, List.length_drop, decide_eq_true_eq]
+            simp only [List.length_drop] at hr hne
+            omega
+          rw [hp] at h
+          unfold Rdp.body at h
+          simp at h
+        have hd : ((bs.take k).drop l4rdp_RDPConnReqBytesMin).length = k - l4rdp_RDPConnReqBytesMin := by
+          rw [List.length_drop, hlk]
+        rw [hd, if_pos (by simp only [List.length_drop] at hex; omega)]
+
+/-- **RDP, `no` is final** (every configuration) -/
+theorem rdp_no_stable (cfg : Rdp.Cfg) (pre ext : Bytes) (h : Rdp.matcher cfg pre = .no) :
+    Rdp.matcher cfg (pre ++ ext) = .no := by
+  cases ext with
+  | nil => simpa using h
+  | cons e es =>
+  unfold Rdp.matcher at h ⊢
+  split at h
+  · cases h
+  rename_i hl
+  rw [if_neg (by rw [List.length_append]; omega)]
+  have ht : (pre ++ e :: es).take l4rdp_RDPConnReqBytesMin = pre.take l4rdp_RDPConnReqBytesMin :=
+    List.take_append_of_le_length (by omega)
+  rw [ht]
+  cases hh : Rdp.header (pre.take l4rdp_RDPConnReqBytesMin) with
+  | panic s => rw [hh] at h; cases h
+  | err c => rw [hh] at h; cases h
+  | ok r =>
+    rw [hh] at h
+    cases r with
+    | none => rfl
+    | some n =>
+      simp only [] at h ⊢
+      split at h
+      · cases h
+      rename_i hr
+      have hd : (pre ++ e :: es).drop l4rdp_RDPConnReqBytesMin = pre.drop l4rdp_RDPConnReqBytesMin ++ e :: es :=
+        List.drop_append_of_le_length (by omega)
+      rw [hd]
+      rw [if_neg (by rw [List.length_append]; omega)]
+      have hp : Rdp.probe1 ((pre.drop l4rdp_RDPConnReqBytesMin ++ e :: es).drop n) = true := by
+        simp only [Rdp.probe1, List.length_drop, List.length_append, List.length_cons, decide_eq_true_eq]
+        simp only [List.length_drop] at hr
+        omega
+      rw [hp]
+      unfold Rdp.body
+      simp
+
+
+
+
+theorem ral_exact (c : Nat) (hc : 0 < c) (k' : Bytes → Prog) (rest : Bytes)
+    (h : (Prog.readAtLeast (c + 1) c fun b => if b.length > c then .ret .no else k' b).run rest = .yes) :
+    rest.length = c := by
+  simp only [Prog.run] at h
+  rw [if_neg (by omega), if_neg (by omega)] at h
+  split at h
+  · rename_i hm
+    by_cases hgt : c < rest.length
+    · have : (rest.take (min (c + 1) rest.length)).length > c := by rw [List.length_take]; omega
+      rw [if_pos this] at h
+      simp [Prog.run] at h
+    · omega
+  · cases h
+
+theorem ral_prefix (c : Nat) (hc : 0 < c) (kk : Bytes → Prog) (rest : Bytes) (h : rest.length < c) :
+    (Prog.readAtLeast (c + 1) c kk).run rest = .more := by
+  simp only [Prog.run]
+  rw [if_neg (by omega), if_neg (by omega), if_neg (by omega)]
+
+/-- what the TCP framing of a matching OpenVPN message looks like, and what its proper prefixes get -/
+theorem ovpnBody_tcp_exact (cfg : OvpnCfg) (l : Nat) (op : UInt8) (hl : l4openvpn_MessagePlainBytesTotal ≤ l) (rest : Bytes)
+    (h : (ovpnBody cfg true l op).run rest = .yes) :
+    rest.length = l - 1 ∧ ∀ j, j < rest.length → (ovpnBody cfg true l op).run (rest.take j) = .more := by
+  have hl' : 0 < l - 1 := by simp only [l4openvpn_MessagePlainBytesTotal] at hl; omega
+  unfold ovpnBody at h ⊢
+  simp only [] at h ⊢
+  split at h
+  · simp [Prog.run] at h
+  rename_i hk
+  rw [if_neg hk]
+  split at h
+  · rename_i hv2
+    rw [if_pos hv2]
+    simp only [↓reduceIte] at h ⊢
+    split at h
+    · simp [Prog.run] at h
+    rename_i hmax
+    rw [if_neg hmax]
+    have := ral_exact (l - 1) hl' _ rest h
+    refine ⟨this, fun j hj => ral_prefix (l - 1) hl' _ _ (by rw [List.length_take]; omega)⟩
+  · rename_i hv2
+    rw [if_neg hv2]
+    unfold ovpnV3 at h ⊢
+    split at h
+    · rename_i hv3
+      rw [if_pos hv3]
+      simp only [↓reduceIte] at h ⊢
+      split at h
+      · simp [Prog.run] at h
+      rename_i hmin
+      rw [if_neg hmin]
+      have := ral_exact (l - 1) hl' _ rest h
+      refine ⟨this, fun j hj => ral_prefix (l - 1) hl' _ _ (by rw [List.length_take]; omega)⟩
+    · simp [Prog.run] at h
+
+/-- **OpenVPN over TCP, fragmentation safety** (every mode combination, any keyed-mode verifier) -/
+theorem openvpnTcp_fragment_safe (cfg : OvpnCfg) (bs : Bytes) (h : (openvpn cfg true).run bs = .yes)
+    (k : Nat) (hk : k < bs.length) : (openvpn cfg true).run (bs.take k) = .more := by
+  unfold openvpn at h ⊢
+  simp only [↓reduceIte, Prog.run] at h ⊢
+  have h2 : l4openvpn_LengthBytesTotal = 2 := rfl
+  split at h
+  · rename_i hl2
+    split at h
+    · simp [Prog.run] at h
+    rename_i hrange
+    simp only [Prog.run] at h
+    split at h
+    · rename_i hl3
+      have hb := ovpnBody_tcp_exact cfg _ _ (by omega) _ h
+      by_cases hk2 : k < l4openvpn_LengthBytesTotal
+      · rw [if_neg (by rw [List.length_take]; omega)]
+      · have hlk : (bs.take k).length = k := by rw [List.length_take]; omega
+        rw [if_pos (by omega)]
+        have ht : (bs.take k).take l4openvpn_LengthBytesTotal = bs.take l4openvpn_LengthBytesTotal := by
+          rw [List.take_take]; congr 1; omega
+        rw [ht, if_neg hrange]
+        simp only [Prog.run]
+        have hd : (bs.take k).drop l4openvpn_LengthBytesTotal = (bs.drop l4openvpn_LengthBytesTotal).take (k - l4openvpn_LengthBytesTotal) := by
+          rw [List.drop_take]
+        rw [hd]
+        have hdl : ((bs.drop l4openvpn_LengthBytesTotal).take (k - l4openvpn_LengthBytesTotal)).length = k - l4openvpn_LengthBytesTotal := by
+          rw [List.length_take, List.length_drop]; omega
+        by_cases hk3 : 1 ≤ k - l4openvpn_LengthBytesTotal
+        · rw [if_pos (by omega)]
+          have ht1 : ((bs.drop l4openvpn_LengthBytesTotal).take (k - l4openvpn_LengthBytesTotal)).take 1 = (bs.drop l4openvpn_LengthBytesTotal).take 1 := by
+            rw [List.take_take]; congr 1; omega
+          have hd1 : ((bs.drop l4openvpn_LengthBytesTotal).take (k - l4openvpn_LengthBytesTotal)).drop 1 =
+              ((bs.drop l4openvpn_LengthBytesTotal).drop 1).take (k - l4openvpn_LengthBytesTotal - 1) := by
+            rw [List.drop_take]
+          rw [ht1, hd1]
+          apply hb.2
+          rw [List.length_drop, List.length_drop]
+          omega
+        · rw [if_neg (by omega)]
+    · cases h
+  · cases h
+
+
+
+
+theorem ral_no_stable (c : Nat) (hc : 0 < c) (k' : Bytes → Prog) (rest ext : Bytes)
+    (h : (Prog.readAtLeast (c + 1) c fun b => if b.length > c then .ret .no else k' b).run rest = .no) :
+    (Prog.readAtLeast (c + 1) c fun b => if b.length > c then .ret .no else k' b).run (rest ++ ext) = .no := by
+  cases ext with
+  | nil => simpa using h
+  | cons e es =>
+  simp only [Prog.run] at h ⊢
+  rw [if_neg (by omega), if_neg (by omega)] at h ⊢
+  split at h
+  · rename_i hm
+    have hl : (rest ++ e :: es).length = rest.length + es.length + 1 := by simp; omega
+    rw [if_pos (by omega)]
+    have : ((rest ++ e :: es).take (min (c + 1) (rest ++ e :: es).length)).length > c := by
+      rw [List.length_take]; omega
+    rw [if_pos this]
+    simp [Prog.run]
+  · cases h
+
+theorem ovpnBody_tcp_no_stable (cfg : OvpnCfg) (l : Nat) (op : UInt8) (hl : l4openvpn_MessagePlainBytesTotal ≤ l)
+    (rest ext : Bytes) (h : (ovpnBody cfg true l op).run rest = .no) : (ovpnBody cfg true l op).run (rest ++ ext) = .no := by
+  have hl' : 0 < l - 1 := by simp only [l4openvpn_MessagePlainBytesTotal] at hl; omega
+  unfold ovpnBody at h ⊢
+  simp only [] at h ⊢
+  split
+  · simp [Prog.run]
+  rename_i hk
+  rw [if_neg hk] at h
+  split
+  · rename_i hv2
+    rw [if_pos hv2] at h
+    simp only [↓reduceIte] at h ⊢
+    split
+    · simp [Prog.run]
+    rename_i hmax
+    rw [if_neg hmax] at h
+    exact ral_no_stable (l - 1) hl' _ rest ext h
+  · rename_i hv2
+    rw [if_neg hv2] at h
+    unfold ovpnV3 at h ⊢
+    split
+    · rename_i hv3
+      rw [if_pos hv3] at h
+      simp only [↓reduceIte] at h ⊢
+      split
+      · simp [Prog.run]
+      rename_i hmin
+      rw [if_neg hmin] at h
+      exact ral_no_stable (l - 1) hl' _ rest ext h
+    · simp [Prog.run]
+
+/-- **OpenVPN over TCP, `no` is final** -/
+theorem openvpnTcp_no_stable (cfg : OvpnCfg) (pre ext : Bytes) (h : (openvpn cfg true).run pre = .no) :
+    (openvpn cfg true).run (pre ++ ext) = .no := by
+  unfold openvpn at h ⊢
+  simp only [↓reduceIte, Prog.run] at h ⊢
+  have h2 : l4openvpn_LengthBytesTotal = 2 := rfl
+  split at h
+  · rename_i hl2
+    rw [if_pos (by rw [List.length_append]; omega)]
+    have ht : (pre ++ ext).take l4openvpn_LengthBytesTotal = pre.take l4openvpn_LengthBytesTotal :=
+      List.take_append_of_le_length hl2
+    have hd : (pre ++ ext).drop l4openvpn_LengthBytesTotal = pre.drop l4openvpn_LengthBytesTotal ++ ext :=
+      List.drop_append_of_le_length hl2
+    rw [ht, hd]
+    split
+    · simp [Prog.run]
+    rename_i hrange
+    rw [if_neg hrange] at h
+    simp only [Prog.run] at h ⊢
+    split at h
+    · rename_i hl3
+      rw [if_pos (by rw [List.length_append]; omega)]
+      have ht1 : (pre.drop l4openvpn_LengthBytesTotal ++ ext).take 1 = (pre.drop l4openvpn_LengthBytesTotal).take 1 :=
+        List.take_append_of_le_length hl3
+      have hd1 : (pre.drop l4openvpn_LengthBytesTotal ++ ext).drop 1 = (pre.drop l4openvpn_LengthBytesTotal).drop 1 ++ ext :=
+        List.drop_append_of_le_length hl3
+      rw [ht1, hd1]
+      exact ovpnBody_tcp_no_stable cfg _ _ (by omega) _ ext h
+    · cases h
+  · cases h
+
+
+end
 
 end L4.C06
